@@ -99,6 +99,12 @@ var (
 	pWalSelf  = mk(0x48) // wallet with balance: DELEGATECALL pLibSelf
 	pWalLib   = mk(0x49) // wallet with balance: DELEGATECALL pLibLib
 	pWalNest  = mk(0x4a) // wallet with balance: DELEGATECALL pLibMid -> DELEGATECALL pLibSink
+	// call-family loops (gas operand 0: a value-bearing call runs on the stipend alone): gas must be conserved
+	pLoopCC   = mk(0x50) // CALLCODE value 1 onto an account without code
+	pLoopCall = mk(0x51) // CALL value 1 onto an account without code
+	pLoopDel  = mk(0x52) // DELEGATECALL onto trivial code
+	pLoopCr   = mk(0x53) // CREATE value 1
+	pTrivial  = mk(0x54) // STOP
 	pWalTwice = mk(0x4b) // wallet: DELEGATECALL pLibSink, is re-funded by the caller's value, CALLCODE pLibSink0 again
 )
 
@@ -482,6 +488,13 @@ func callcode(lib common.Address, value uint64) *Asm {
 	return A().Push(0).Push(0).Push(0).Push(0).Push(value).PushAddr(lib).Push(80000).Op(0xf2).Op(POP)
 }
 
+// loopCode: n iterations of body (counter on the stack; loop head at offset 2)
+func loopCode(body func(a *Asm), n uint64) []byte {
+	a := A().Push(n).Op(JUMPDEST)
+	body(a)
+	return a.Push(1).Op(0x90, 0x03, 0x80).Push(2).Op(JUMPI, STOP).B
+}
+
 func progs() []prog {
 	// CALL(gas 0, COINBASE / CALLER, value 3)
 	payTo := func(op byte) []byte {
@@ -536,6 +549,11 @@ func progs() []prog {
 		{name: "wallet-delegate-lib", addr: pWalLib, code: delegate(pLibLib).Op(STOP).B, bal: 10},
 		{name: "wallet-delegate-nested", addr: pWalNest, code: delegate(pLibMid).Op(STOP).B, bal: 10},
 		{name: "wallet-twice", addr: pWalTwice, code: delegate(pLibSink).Call(60000, pFunder, 0).Op(POP).B, bal: 10},
+		{name: "loop-callcode", addr: pLoopCC, code: loopCode(func(a *Asm) { a.Push(0).Push(0).Push(0).Push(0).Push(1).PushAddr(sink).Push(0).Op(0xf2).Op(POP) }, 24), bal: 100},
+		{name: "loop-call", addr: pLoopCall, code: loopCode(func(a *Asm) { a.Push(0).Push(0).Push(0).Push(0).Push(1).PushAddr(sink).Push(0).Op(0xf1).Op(POP) }, 17), bal: 100},
+		{name: "loop-delegatecall", addr: pLoopDel, code: loopCode(func(a *Asm) { a.Push(0).Push(0).Push(0).Push(0).PushAddr(pTrivial).Push(0).Op(0xf4).Op(POP) }, 31), bal: 100},
+		{name: "loop-create", addr: pLoopCr, code: loopCode(func(a *Asm) { a.Create(1, A().Op(STOP).B).Op(POP) }, 5), bal: 100},
+		{name: "trivial", addr: pTrivial, code: []byte{STOP}},
 		{name: "create-collide", addr: pCrColl, code: A().Create(2, A().SStore(0, 1).Op(STOP).B).Op(POP).Op(STOP).B, bal: 10},
 	}
 }
@@ -594,6 +612,10 @@ func txKinds() []txKind {
 		{name: "selfdestruct-via-delegatecall:to-the-library", mk: to(pWalLib), sd: true},
 		{name: "selfdestruct-via-delegatecall:nested", mk: to(pWalNest), sd: true},
 		{name: "selfdestruct-via-delegatecall:then-called-again", mk: to(pWalTwice), sd: true},
+		{name: "loop:callcode-with-value-x24", mk: to(pLoopCC)},
+		{name: "loop:call-with-value-x17", mk: to(pLoopCall)},
+		{name: "loop:delegatecall-x31", mk: to(pLoopDel)},
+		{name: "loop:create-with-value-x5", mk: to(pLoopCr)},
 		{name: "multi:destruct-fund-destruct-x3", mk: to(pRepeat), sd: true},
 		{name: "multi:destruct-fund-via-third-contract-destruct-x2", mk: to(pRepeatF), sd: true},
 		{name: "multi:destruct-to-fresh-fund-destruct-x2", mk: to(pRepeatN), sd: true},
@@ -634,6 +656,9 @@ func buildTx(k txKind, e *txEnv, r *vh.RNG, nonce uint64, signer types.Signer, s
 	to, data := k.mk(e, r)
 	value := pickValue(r)
 	price := pickPrice(r)
+	if strings.HasPrefix(k.name, "loop:") && price.Sign() == 0 {
+		price = big.NewInt(1) // gas that appears from nowhere only shows in the balances at a non-zero price
+	}
 	var tx *types.Transaction
 	if to == nil {
 		tx = types.NewContractCreation(nonce, value, txGas, price, data)
@@ -659,7 +684,7 @@ func baseUniverse(aStart, count uint64) Universe {
 		u = append(u, p.addr)
 	}
 	for n := uint64(0); n < count; n++ {
-		u = append(u, crypto.CreateAddress(addrA, aStart+n), crypto.CreateAddress(addrB, n), crypto.CreateAddress(pCrFail, n), crypto.CreateAddress(pCrOK, n), crypto.CreateAddress(pCrColl, n), crypto.CreateAddress(pSdCreate, n))
+		u = append(u, crypto.CreateAddress(addrA, aStart+n), crypto.CreateAddress(addrB, n), crypto.CreateAddress(pCrFail, n), crypto.CreateAddress(pCrOK, n), crypto.CreateAddress(pCrColl, n), crypto.CreateAddress(pSdCreate, n), crypto.CreateAddress(pLoopCr, n), crypto.CreateAddress(pLoopCr, n+6), crypto.CreateAddress(pLoopCr, n+12), crypto.CreateAddress(pLoopCr, n+18), crypto.CreateAddress(pLoopCr, n+24))
 	}
 	return u
 }
@@ -674,7 +699,7 @@ var forcedKind string
 func directedKinds() []string {
 	var out []string
 	for _, k := range txKinds() {
-		if strings.HasPrefix(k.name, "multi:") || strings.HasPrefix(k.name, "selfdestruct-") || k.name == "inner-create-value-collision" {
+		if strings.HasPrefix(k.name, "loop:") || strings.HasPrefix(k.name, "multi:") || strings.HasPrefix(k.name, "selfdestruct-") || k.name == "inner-create-value-collision" {
 			out = append(out, k.name)
 		}
 	}
@@ -978,6 +1003,12 @@ func runBlock(c *vh.Ctx, m *vh.Model, b *blockCase) {
 				c.Violate("tx-supply-not-exact-with-selfdestruct/"+scen, fmt.Sprintf("sum of balances changed by %s, the deleted accounts held %s", Sub(after, before), burn), rp())
 			}
 			c.Count("tx:selfdestruct-supply-checked-exactly")
+		}
+		if run.T.GasIncreased != "" {
+			c.Violate("frame-gas-increases/"+scen, "inside one frame the gas available rose between two instructions: "+run.T.GasIncreased, rp())
+		}
+		if run.Receipt.GasUsed > tx.Gas() {
+			c.Violate("gas-used-above-limit/"+scen, fmt.Sprintf("gas used %d, limit %d", run.Receipt.GasUsed, tx.Gas()), rp())
 		}
 		if run.T.NSelfdestruct >= 3 {
 			c.Count("tx:three-or-more-selfdestructs")
